@@ -89,6 +89,9 @@ func apply(c Case) ([]lg.Reply, string) {
 	reps := lg.ValidReplies(c.Encrypt, c.KeyBits, nonce(c.Nonce))
 	for i := range reps {
 		reps[i].Pack = c.Pack
+		if c.Pack >= 100 && i != len(reps)-1 {
+			reps[i].Pack = 0 // 100+k: the LAST reply is cut at offset k
+		}
 		if c.Pack == 4 && i != len(reps)-1 {
 			// only the last reply ends with an empty EOM packet: the library hands header-only packets to
 			// the consumer as packages of their own, in the middle of the conversation that is C02's
@@ -645,6 +648,19 @@ func main() {
 	for _, b := range bases {
 		emit(b)
 		h.Section("valid-scripts", 1)
+	}
+	// every 1-cut packetisation of the accepting reply, with the packet size announcement at either end of it
+	for _, enc := range []bool{false, true} {
+		last := 0
+		if enc {
+			last = 1
+		}
+		for _, at := range []int{0, 1} {
+			for k := 1; k <= 130; k++ {
+				emit(Case{Encrypt: enc, KeyBits: 1024, Nonce: 16, Pack: 100 + k, Edits: []Edit{{Op: "insert", Reply: last, I: at, What: "envchange-packsize"}}})
+				h.Section("every-cut-of-the-accepting-reply", 1)
+			}
+		}
 	}
 	// single edits on a reduced set of bases (all packetisations; one key size per nonce length)
 	var eb []Case
